@@ -76,7 +76,20 @@ pub fn serialize_dap_value(
     })
 }
 
+/// Maximum nesting of tuples/objects/enum payloads in an input value,
+/// the parser is recursive and the input is an arbitrary user string.
+const MAX_INPUT_DEPTH: usize = 64;
+
 fn parse_input_value(input: &str) -> Result<InputValue, SerializeError> {
+    parse_input_value_at(input, 0)
+}
+
+fn parse_input_value_at(input: &str, depth: usize) -> Result<InputValue, SerializeError> {
+    if depth > MAX_INPUT_DEPTH {
+        return Err(SerializeError::UnsupportedInput(
+            "value is nested too deeply".to_string(),
+        ));
+    }
     let trimmed = input.trim();
     if trimmed.is_empty() {
         return Err(SerializeError::UnsupportedInput("empty input".to_string()));
@@ -86,22 +99,22 @@ fn parse_input_value(input: &str) -> Result<InputValue, SerializeError> {
         return Ok(input_from_json(&json));
     }
 
-    if let Some(enum_value) = parse_enum_syntax(trimmed)? {
+    if let Some(enum_value) = parse_enum_syntax(trimmed, depth)? {
         return Ok(enum_value);
     }
 
-    if let Some(tuple) = parse_tuple_syntax(trimmed)? {
+    if let Some(tuple) = parse_tuple_syntax(trimmed, depth)? {
         return Ok(tuple);
     }
 
-    if let Some(obj) = parse_object_syntax(trimmed)? {
+    if let Some(obj) = parse_object_syntax(trimmed, depth)? {
         return Ok(obj);
     }
 
     Ok(InputValue::Scalar(trimmed.to_string()))
 }
 
-fn parse_enum_syntax(input: &str) -> Result<Option<InputValue>, SerializeError> {
+fn parse_enum_syntax(input: &str, depth: usize) -> Result<Option<InputValue>, SerializeError> {
     let mut chars = input.chars();
     let first = chars.next();
     let Some(first) = first else {
@@ -130,10 +143,10 @@ fn parse_enum_syntax(input: &str) -> Result<Option<InputValue>, SerializeError> 
 
     let payload = if rest.starts_with('(') && rest.ends_with(')') {
         let inner = &rest[1..rest.len() - 1];
-        Some(Box::new(parse_input_value(inner)?))
+        Some(Box::new(parse_input_value_at(inner, depth + 1)?))
     } else if rest.starts_with('{') && rest.ends_with('}') {
         let inner = &rest[1..rest.len() - 1];
-        Some(Box::new(parse_object_body(inner)?))
+        Some(Box::new(parse_object_body(inner, depth + 1)?))
     } else {
         return Ok(None);
     };
@@ -144,7 +157,7 @@ fn parse_enum_syntax(input: &str) -> Result<Option<InputValue>, SerializeError> 
     }))
 }
 
-fn parse_tuple_syntax(input: &str) -> Result<Option<InputValue>, SerializeError> {
+fn parse_tuple_syntax(input: &str, depth: usize) -> Result<Option<InputValue>, SerializeError> {
     let trimmed = input.trim();
     if !(trimmed.starts_with('(') && trimmed.ends_with(')')) {
         return Ok(None);
@@ -153,21 +166,21 @@ fn parse_tuple_syntax(input: &str) -> Result<Option<InputValue>, SerializeError>
     let items = split_top_level(inner)
         .into_iter()
         .filter(|part| !part.trim().is_empty())
-        .map(|part| parse_input_value(part.trim()))
+        .map(|part| parse_input_value_at(part.trim(), depth + 1))
         .collect::<Result<Vec<_>, _>>()?;
     Ok(Some(InputValue::Array(items)))
 }
 
-fn parse_object_syntax(input: &str) -> Result<Option<InputValue>, SerializeError> {
+fn parse_object_syntax(input: &str, depth: usize) -> Result<Option<InputValue>, SerializeError> {
     let trimmed = input.trim();
     if !(trimmed.starts_with('{') && trimmed.ends_with('}')) {
         return Ok(None);
     }
     let inner = &trimmed[1..trimmed.len() - 1];
-    Ok(Some(parse_object_body(inner)?))
+    Ok(Some(parse_object_body(inner, depth + 1)?))
 }
 
-fn parse_object_body(body: &str) -> Result<InputValue, SerializeError> {
+fn parse_object_body(body: &str, depth: usize) -> Result<InputValue, SerializeError> {
     let mut out = IndexMap::new();
     for part in split_top_level(body) {
         let part = part.trim();
@@ -176,7 +189,7 @@ fn parse_object_body(body: &str) -> Result<InputValue, SerializeError> {
         }
         let (key, value) = split_key_value(part)?;
         let key = key.trim().trim_matches('"').trim_matches('\'');
-        let value = parse_input_value(value.trim())?;
+        let value = parse_input_value_at(value.trim(), depth + 1)?;
         out.insert(key.to_string(), value);
     }
     Ok(InputValue::Object(out))
